@@ -19,7 +19,7 @@ Print Assumptions C13_cancelled_stops_immediately.
 (** In the compositional semantics (which [force] computes, C01): a promise
     evaluated with no polls left does no work at all, *)
 Theorem C13_no_polls_no_work :
-  forall p st o st', s_polls st = Some O -> Eval p st o st' -> o = VCancel /\ st' = st.
+  forall p st o st', is_fuel_err p = false -> s_polls st = Some O -> Eval p st o st' -> o = VCancel /\ st' = st.
 Proof. exact no_polls_no_work. Qed.
 Print Assumptions C13_no_polls_no_work.
 
